@@ -39,6 +39,10 @@ func stemPair(w, r string) bool {
 	if explicitStems[w] == r {
 		return true
 	}
+	// alternative writers of one record buffer: SetRecords, SetRecordsList, SetRecordsArray ~ GetRecords
+	if strings.HasPrefix(w, "SetRecords") && r == "GetRecords" {
+		return true
+	}
 	return false
 }
 
@@ -166,7 +170,9 @@ type pairRules struct {
 	CountLink string // rule id for count-link findings
 }
 
-// runPairs matches every pair and files obligations.
+// runPairs matches every pair and files obligations: one OK obligation per pair and rule when the
+// whole pair agrees; otherwise one violation per distinct disagreement, keyed by the pair and the
+// disagreement's own text (kinds, labels) — never by line — so that a known finding suppresses only itself.
 func runPairs(p *core.Program, x *wire.Extractor, r *core.Report, pairs []codecPair, rules pairRules, depth int) {
 	for _, cp := range pairs {
 		res := x.MatchFuncs(cp.W, cp.WS, cp.R, cp.RS, isPairFunc, depth)
@@ -175,44 +181,40 @@ func runPairs(p *core.Program, x *wire.Extractor, r *core.Report, pairs []codecP
 		r.Stats["prims_matched"] += res.Prims
 		r.Stats["worlds"] += res.Worlds
 		r.Stats["labels_compared"] += res.Labels
-		var lay, fld, cnt []string
+		bad := map[string]bool{}
 		for _, f := range res.Failures {
-			msg := fmt.Sprintf("%s [writer %s | reader %s]", f.Msg, p.Pos(f.WPos), p.Pos(f.RPos))
+			where := fmt.Sprintf("writer %s | reader %s", p.Pos(f.WPos), p.Pos(f.RPos))
+			rule := rules.Pairs
 			switch f.Kind {
-			case "label", "dropped":
-				fld = append(fld, msg)
+			case "label", "dropped", "omission":
+				if rules.Fields != "" {
+					rule = rules.Fields
+				}
 			case "countlink":
-				cnt = append(cnt, msg)
-			case "undecided":
-				r.Undec(rules.Pairs, cp.Name, pos, msg)
-			default:
-				lay = append(lay, msg)
+				if rules.CountLink != "" {
+					rule = rules.CountLink
+				}
 			}
-		}
-		undecided := false
-		for _, f := range res.Failures {
+			bad[rule] = true
+			construct := cp.Name + " :: " + f.Msg
 			if f.Kind == "undecided" {
-				undecided = true
+				r.Undec(rule, construct, pos, where)
+			} else {
+				r.Viol(rule, construct, pos, where)
 			}
 		}
-		if len(lay) > 0 {
-			r.Viol(rules.Pairs, cp.Name, pos, strings.Join(lay, " ;; "))
-		} else if !undecided {
+		for _, n := range res.Notes {
+			r.Info(rules.Pairs, cp.Name+" :: "+n, pos, "")
+		}
+		anyLayout := bad[rules.Pairs]
+		if !anyLayout {
 			r.OK(rules.Pairs, cp.Name, pos, fmt.Sprintf("%d primitive positions agree over %d joint paths", res.Prims, res.Worlds))
 		}
-		if rules.Fields != "" {
-			if len(fld) > 0 {
-				r.Viol(rules.Fields, cp.Name, pos, strings.Join(fld, " ;; "))
-			} else if len(lay) == 0 && !undecided {
-				r.OK(rules.Fields, cp.Name, pos, fmt.Sprintf("%d field correspondences", res.Labels))
-			}
+		if rules.Fields != "" && !bad[rules.Fields] && !anyLayout {
+			r.OK(rules.Fields, cp.Name, pos, fmt.Sprintf("%d field correspondences", res.Labels))
 		}
-		if rules.CountLink != "" {
-			if len(cnt) > 0 {
-				r.Viol(rules.CountLink, cp.Name, pos, strings.Join(cnt, " ;; "))
-			} else if len(lay) == 0 && !undecided {
-				r.OK(rules.CountLink, cp.Name, pos, "")
-			}
+		if rules.CountLink != "" && !bad[rules.CountLink] && !anyLayout {
+			r.OK(rules.CountLink, cp.Name, pos, "")
 		}
 	}
 }
